@@ -143,7 +143,10 @@ def run_C01(ctx):
     proof = core.proof_stage("C01")
     core.builds()
     n = ctx.scale(500, 6000)
-    cases = corpus("C01") + gen_cases(ctx, n, 5, ctx.scale(60, 300), big_cache=True, p_reject=0.0)
+    # mostly legal histories; a few refused calls (a lower or incomparable vote, an id not above
+    # last, a gap, a commit backwards, a truncate at a missing index) check that what is
+    # accepted and what is refused is what the reference log decides
+    cases = corpus("C01") + gen_cases(ctx, n, 5, ctx.scale(60, 300), big_cache=True, p_reject=0.03)
     impl, model = seq_run(ctx, cases)
     spec_oracle(ctx, cases, impl, "C01 oracle")
     # extraction cross-check: the kernel's VM must agree with the extracted OCaml model
@@ -152,7 +155,7 @@ def run_C01(ctx):
     for m in vmf[:2]:
         ctx.fail("corr", "extraction cross-check: vm_compute inside Coq disagrees with the extracted model", dict(check="vm", detail=m))
     ctx.k_checks["extraction-vs-vm_compute"] = (not vmf, nvm)
-    cov(ctx, cases, impl, "seeded structured legal histories (truncate-then-append at a lower term, purge beyond last, first append at a non-zero index, empty and multi-KB payloads) x random chunk/read-buffer settings incl. 0 and 1, big cache; distinct by case line; non-trivial = contains a chunk rotation or a refused/boundary operation")
+    cov(ctx, cases, impl, "seeded structured histories, legal but for 3% refused calls (truncate-then-append at a lower term, purge beyond last, first append at a non-zero index, empty and multi-KB payloads) x random chunk/read-buffer settings incl. 0 and 1, big cache; distinct by case line; non-trivial = contains a chunk rotation or a refused/boundary operation")
     return core.finish(ctx, proof)
 
 
